@@ -293,6 +293,11 @@ func MatchName(name string, patterns ...string) bool {
 func Instrs(fn *ssa.Function) []ssa.Instruction {
 	var out []ssa.Instruction
 	for _, b := range fn.Blocks {
+		if b == fn.Recover {
+			// synthetic: where a recovered panic resumes (loads the named results and returns);
+			// no source statement corresponds to it
+			continue
+		}
 		out = append(out, b.Instrs...)
 	}
 	return out
@@ -1080,4 +1085,21 @@ func holdsInto(b *ssa.BasicBlock, ok func([]Fact) bool, depth int) bool {
 		}
 	}
 	return false
+}
+
+
+// RetVal is the value a return statement yields for result idx, looking
+// through the spill that go/ssa inserts when the function defers something
+// (store to the result cell, run defers, load, return). When several values
+// can reach the return (a named result assigned on different paths) the raw
+// operand is returned; use RetVals or a path for those.
+func RetVal(ret *ssa.Return, idx int) ssa.Value {
+	if idx >= len(ret.Results) {
+		return nil
+	}
+	vs := RetVals(ret, idx)
+	if len(vs) == 1 {
+		return vs[0]
+	}
+	return ret.Results[idx]
 }
